@@ -50,6 +50,9 @@ def main(argv):
     seed = int(os.environ.get("VERIF_SEED", "0"))
     t0 = time.time()
     shutil.rmtree(cm.WORK / prop, ignore_errors=True)
+    if argv[1] != "--replay":
+        for old in (cm.WORK / "replay").glob(f"{prop}-*.json"):
+            old.unlink()
     ctx = Ctx(prop, tier, seed)
     try:
         mod = importlib.import_module(f"harness.props.{prop.lower()}")
@@ -81,14 +84,18 @@ def main(argv):
 
         # ---- 2. audit -----------------------------------------------------------------------------------------------
         wanted, thms, raw, rc = cm.lean_audit(prop)
+        if gen_targets and gen_ok and (cm.LEAN_DIR / "Audit" / f"{prop}Gen.lean").exists():
+            w2, t2, raw2, rc2 = cm.lean_audit(prop, suffix="Gen")
+            wanted, raw, rc = wanted + w2, raw + raw2, rc or rc2
+            thms.update(t2)
         bad_axioms = {t: a for t, a in thms.items() if not set(a) <= cm.STD_AXIOMS}
         missing = [t for t in wanted if t not in thms]
         hits = cm.forbidden_hits()
         if missing or bad_axioms or hits or rc != 0:
             print(raw[-3000:])
             raise Infra(f"audit failed: missing={missing} bad_axioms={bad_axioms} forbidden={hits[:5]} rc={rc}")
-        obligations = len(wanted) + len(gen_targets)
-        discharged = len([t for t in wanted if t in thms]) + (len(gen_targets) if gen_ok else 0)
+        obligations = len(wanted) + (0 if gen_ok else len(gen_targets))
+        discharged = len([t for t in wanted if t in thms])
         if tier == "thorough" and getattr(mod, "LEANCHECKER", True):
             r = cm._run(["lake", "env", "leanchecker", *targets], cm.LEAN_DIR, 3000)
             if r.returncode != 0:
